@@ -173,6 +173,17 @@ def compare(ref, cur, vocab, local_names, local_names_ref=frozenset()):
                 st = r[i]
                 if not any(st.startswith(p) or ('.' + p + '.') in st or st.startswith('self.' + p)
                            for p in LOGGING) and not st.startswith(('assert ', 'pass')):
+                    # `v = E` removed and E now written where v was read: the local was inlined
+                    try:
+                        a_ = ast.parse(st).body[0]
+                    except (SyntaxError, IndexError):
+                        a_ = None
+                    if isinstance(a_, ast.Assign) and len(a_.targets) == 1 and \
+                            isinstance(a_.targets[0], ast.Name) and \
+                            a_.targets[0].id not in cur['names'] and \
+                            any(unparse(a_.value) in c for c in cur['stmts'] + [
+                                t for _, t in cur.get('iters', [])]):
+                        return out
                     out.append(('statement dropped', st[:120]))
                 return out
     # E: arguments swapped
